@@ -22,6 +22,8 @@ pub enum Event {
         view: u64,
         /// Debug name of the error variant, `None` if the message was accepted.
         error: Option<String>,
+        /// The message itself.
+        msg: Box<validator::Signed<validator::ConsensusMsg>>,
     },
 }
 
@@ -85,9 +87,22 @@ pub(crate) fn note_err(err: &dyn std::fmt::Debug) {
     LAST_ERR.with(|x| *x.borrow_mut() = Some(class));
 }
 
-pub(crate) fn emit_handled(sm: &StateMachine, label: &'static str, view: u64) {
+pub(crate) fn emit_handled(sm: &StateMachine, msg: validator::Signed<validator::ConsensusMsg>) {
     let error = LAST_ERR.with(|x| x.borrow_mut().take());
-    emit(sm, Event::Handled { label, view, error });
+    emit(
+        sm,
+        Event::Handled {
+            label: msg.msg.label(),
+            view: msg.msg.view_number().0,
+            error,
+            msg: Box::new(msg),
+        },
+    );
+}
+
+/// Whether an observer is installed (avoids cloning messages otherwise).
+pub(crate) fn observed() -> bool {
+    OBSERVER.with(|x| x.borrow().is_some())
 }
 
 pub(crate) fn emit(sm: &StateMachine, event: Event) {
